@@ -378,7 +378,7 @@ theorem step_sim (env : Env) (tot : Total env) (a b : St) (h : Sim a b) (op : Op
       exact ⟨by first | rfl | trivial, h⟩
     | true =>
       simp only [Bool.not_true, Bool.false_eq_true, if_false]
-      have h0 : Sim { a with ws := { a.ws with events := [] } } { b with ws := { b.ws with events := [] } } :=
+      have h0 : Sim { a with ws := { a.ws with events := [], wrote := false } } { b with ws := { b.ws with events := [], wrote := false } } :=
         ⟨by simp only [h.ws], h.inst, h.dead⟩
       have ct := callTarget_sim env tot args hacc _ _ h0
       refine ⟨?_, ct.2⟩
